@@ -389,7 +389,10 @@ def builtin_corpus():
 def model_expr(case):
     # token stream and front end (Lang/Front.v); verdict and emitted text of the whole pipeline (Comp/RunCompile.v: compile_text =
     # front, compile_program, the compiler's own refusals, emit_program with the model of repr(), CPython's size limits)
-    return '(OL [run_lex %s; run_front %s; %s])' % (g_str(case['src']), g_str(case['src']), E.model_text_expr(case['src']))
+    from lib.pyrepr_check import cps, g_cps, printable_table
+    c = cps(case['src'])
+    tbl = '; '.join('%d%%N' % x for x in printable_table(c))
+    return '(let s0 := %s in OL [run_lex s0; run_front s0; run_compile_text [%s] s0])' % (g_cps(c), tbl)
 
 # ------------------------------------------------------------------ implementation
 
